@@ -215,9 +215,17 @@ class Replay:
                     self.violations.append({"what": "reads a region not defined earlier in this operation", "cont": name, "key": k, "sizes": dict(self.sizes), "size": st["size"]})
 
 
-def trace_operation(F, cls, f, n_value, count_sym, make_env, extra_setup=None, on_call=None):
-    """Interpret f once per iteration kind with every size guard decided for the concrete segment count n_value."""
+def trace_operation(F, cls, f, n_value, count_sym, make_env, extra_setup=None, on_call=None, hist=None):
+    """Interpret f once per iteration kind with every size guard decided for the concrete segment count n_value.
+    hist: sizes that member buffers are assumed to have *on entry* (left by earlier calls), by symbol name."""
     out = {}
+    hist = hist or {}
+    _sv = globals()["size_value"]
+
+    def size_value(s_, n, cs):
+        if s_.name in hist:
+            return hist[s_.name]
+        return _sv(s_, n, cs)
     for kind, flags in KINDS.items():
         I = Interp(F, cls, on_call=on_call)
         nsym = sp.Symbol(count_sym, integer=True, positive=True)
